@@ -313,6 +313,22 @@ def gen_plan(rng, run_index, tier, opts):
             faults[pos] = one
             plan["fault_pos"] = pos
     plan["faults"] = faults
+    # (drawn last, so that plans of earlier versions of this generator keep their other choices for the same seed)
+    srcs_ = [plan["source"]] if plan["source"]["kind"] == "direct" else (plan["source"].get("parts", []) if plan["source"]["kind"] == "direct_split" else [])
+    if srcs_ and rng.random() < 0.25:
+        # mapping rows of one variable that disagree about the flag: the first row of a variable is the one that counts
+        # (optimization.py reads the flag after index de-duplication, keep='first')
+        for src_ in srcs_:
+            seen_ = set()
+            for r_ in src_["map"]:
+                if r_["i"] in seen_ and rng.random() < 0.6:
+                    r_["bool"] = not r_["bool"]
+                    src_["bool_col"] = True
+                    plan["flag_disagreement"] = True
+                seen_.add(r_["i"])
+    if rng.random() < 0.3:
+        # the switch spelled as another true / false value: numpy bool from a comparison, 0 / 1
+        plan["soft_spelling"] = rng.choice(["np", "int"])
     return plan
 
 
@@ -635,6 +651,15 @@ class Conversation:
                     self.viol("failure-reported-but-feasible", "the peer raised %s (it made no claim), optimize() reports '%s', but the problem has a feasible point "
                               "(verified witness, value %r)" % (rec.get("raised", "an exception"), res, val), "peer-raised")
                 return None
+            if fault is None and res == "not successful" and status == "optimal":
+                # the peer delivered a solution and EAO turned it into "no solution exists": EAO's own claim, whatever the back-end
+                self.stats["failures_checked"] += 1
+                st, val, _w = reference(op, bools)
+                self.stats["ref_solves"] += 1
+                if st == "optimal":
+                    self.viol("failure-reported-but-feasible", "the peer answered 'optimal', optimize() reports '%s', but the problem has a feasible point "
+                              "(verified witness, value %r)" % (res, val), "peer-optimal")
+                return None
             if fault is None and res == "not successful" and (status in ("infeasible",) or (eao_opts and status not in (None, "raised"))):
                 self.stats["failures_checked"] += 1
                 st, val, _w = reference(op, bools)
@@ -848,9 +873,12 @@ class Conversation:
         kw = {}
         if call.get("solver"):
             kw["solver"] = call["solver"]
+        sp_ = plan.get("soft_spelling")
         if self.soft:
-            kw["make_soft_problem"] = True
+            kw["make_soft_problem"] = {"np": np.bool_(True), "int": 1}.get(sp_, True)
             self.probes["soft_problem"] += 1
+        elif sp_:
+            kw["make_soft_problem"] = {"np": np.bool_(False), "int": 0}[sp_]
         target = call.get("target", "value")
         if target == "value" and plan.get("target_spelling"):
             kw["target"] = {"upper": "VALUE", "cap": "Value"}.get(plan["target_spelling"], "value")
@@ -1013,7 +1041,8 @@ class Conversation:
             and plan["source"]["kind"] == "portfolio" and outcome == "results" and ci == 0
         return ("T|" if trivial else "N|") + "|".join([plan["source"]["kind"], rowsig, "mip" if plan["cfg"].get("mip") else "lp",
                                                         str(call.get("solver")), fk, call.get("target", "value"),
-                                                        "soft" if self.soft else "-", outcome, "call%d" % ci])
+                                                        ("soft" if self.soft else "-") + ("/" + plan["soft_spelling"] if plan.get("soft_spelling") else "")
+                                                        + ("/flags-disagree" if plan.get("flag_disagreement") else ""), outcome, "call%d" % ci])
 
     def result(self, outcome):
         if self.harness_error:
